@@ -74,6 +74,14 @@ bool hb_mode(); // true in wmm mode: precedence between operations is happens-be
 // a precedes b (a's response before b's invocation, by step in sc mode, by hb in wmm mode)
 bool precedes(const Event& a, const Event& b);
 void set_op_names(const char* const* names, int n);
+// a call that is documented lock-free but is not recorded as an operation of the history (an iterator step between two recorded yields): the C16 monitor
+// counts its solo steps exactly as inside op_begin(..., lockfree = true)
+void lf_begin(const char* what);
+void lf_end();
+struct LockFree {
+  explicit LockFree(const char* what) { lf_begin(what); }
+  ~LockFree() { lf_end(); }
+};
 
 // ---------------------------------------------------------------- ledger (uninstrumented counters)
 constexpr int NCELLS = 1 << 16;
